@@ -1,13 +1,86 @@
 (* C03 — graph search yields exactly one representative of every isomorphism class.
-   PARTIAL: see the comment at each theorem and notes/C03.md for what is proved and what is
-   only explored. *)
-From Coq Require Import List Arith Bool.
-From Mamba Require Import Search.Counting.
+
+   PARTIAL.  What is proved here, on the model of GraphIterator.Next in Search/Model.v, for
+   every n, a, m, every canonical labelling [canon] that does not read the stale ViableBits
+   when CheckViability is false, every [ksub_reps], [grow]:
+   - C03_shards_partition_partial: the outputs of the shards a = 0..m-1 together are a
+     permutation of the output of the unsplit search (a = 0, m = 1), with any pruning;
+   - C03_prune_is_filter_partial: a hereditary predicate as preprune, as prune or in both
+     places yields the unpruned output filtered by the predicate, in the same order;
+   - C03_recursive_presentation_partial: the iterative machine computes the depth-first
+     recursive presentation [spec];
+   - C03_counting_partial (and Props/C03_cert.v): the orbit-counting certificate.
+   The theorems about runs are conditional on the runs ending without panic within the fuel
+   ([outputs .. = Ok L]); termination / panic-freedom of the model is not proved.
+   NOT proved: that the unpruned, unsplit output is exactly one graph per isomorphism class
+   (McKay's orderly generation relative to a correct [canon]); this is certified per n by the
+   harness with the certificate theorem.  The model is tied to the code by reading only (no
+   co-simulation). *)
+From Coq Require Import List NArith ZArith Arith Bool Permutation.
+From Mamba Require Import Disjoint.Model Search.Model Search.SaveModel.
+From Mamba Require Import Search.Counting Search.ShardModel Search.ShardSim Search.Prune.
+From Mamba Require Import Search.ShardTop Search.ShardExample.
 Import ListNotations.
+Local Open Scope nat_scope.
+
+(* [outputs grow canon ksub_reps preprune prune calls fuel (init n a m) = Ok L]: the loop
+   `for it.Next() { .. it.Value() .. }` on WithPruning(n, a, m, preprune, prune) ends without
+   panic and L is the list of the graphs seen (ShardModel.v). *)
+
+(* The shards partition the unsplit search (as multisets), for all pruning functions. *)
+Theorem C03_shards_partition_partial :
+  forall grow canon ksub_reps, canon_ignores_stale_bits canon ->
+  forall preprune prune n m L (Ls : list (list vgraph)),
+  1 <= m -> length Ls = m ->
+  (exists calls fuel, outputs grow canon ksub_reps preprune prune calls fuel (init n 0 1) = Ok L) ->
+  (forall a, a < m -> exists calls fuel,
+     outputs grow canon ksub_reps preprune prune calls fuel (init n a m) = Ok (nth a Ls [])) ->
+  Permutation (concat Ls) L.
+Proof. exact shards_partition. Qed.
+Print Assumptions C03_shards_partition_partial.
+
+Example C03_shards_nonvacuous :
+  canon_ignores_stale_bits canon0 /\
+  len_res (outs0 no_prune no_prune 4 0 1) = 16 /\
+  len_res (outs0 no_prune no_prune 4 0 2) = 7 /\
+  len_res (outs0 no_prune no_prune 4 1 2) = 9.
+Proof. exact (conj canon0_novb shards_example). Qed.
+
+(* Pruning with a predicate that stays true when a vertex is added (P g = true: g is pruned)
+   is filtering, wherever the predicate is placed. *)
+Theorem C03_prune_is_filter_partial :
+  forall grow canon ksub_reps, canon_ignores_stale_bits canon ->
+  forall P pre post n a m L LP,
+  grows_bad P ->
+  (pre = P \/ pre = no_prune) -> (post = P \/ post = no_prune) -> (pre = P \/ post = P) ->
+  (exists calls fuel, outputs grow canon ksub_reps no_prune no_prune calls fuel (init n a m) = Ok L) ->
+  (exists calls fuel, outputs grow canon ksub_reps pre post calls fuel (init n a m) = Ok LP) ->
+  LP = filter (fun g => negb (P g)) L.
+Proof. exact prune_is_filter. Qed.
+Print Assumptions C03_prune_is_filter_partial.
+
+Example C03_prune_nonvacuous :
+  grows_bad many_edges /\
+  len_res (outs0 no_prune no_prune 4 0 1) = 16 /\
+  len_res (outs0 many_edges no_prune 4 0 1) = 12 /\
+  len_res (outs0 no_prune many_edges 4 0 1) = 12 /\
+  outs0 many_edges no_prune 4 0 1 = outs0 no_prune many_edges 4 0 1.
+Proof. exact (conj many_edges_grows prune_example). Qed.
+
+(* The iterative machine (explicit stacks choices / currentPath, in-place AddVertex /
+   RemoveVertex, cached automorphism group, resumption between calls) computes the recursive
+   depth-first presentation [spec] of ShardModel.v. *)
+Theorem C03_recursive_presentation_partial :
+  forall grow canon ksub_reps preprune prune, canon_ignores_stale_bits canon ->
+  forall n a m calls fuel L,
+  outputs grow canon ksub_reps preprune prune calls fuel (init n a m) = Ok L ->
+  spec canon ksub_reps preprune prune n a m = Some L.
+Proof. exact outputs_spec. Qed.
+Print Assumptions C03_recursive_presentation_partial.
 
 (* The counting core of the completeness certificate applied by the harness: in a finite
    universe X with an equivalence R, a list Y of pairwise inequivalent members whose class
-   sizes add up to |X| meets every class exactly once. *)
+   sizes add up to |X| meets every class exactly once.  (Graph version: Props/C03_cert.v.) *)
 Theorem C03_counting_partial : forall (A : Type) (R : A -> A -> bool) (X : list A),
   (forall x y, In x X -> In y X -> R x y = true -> R y x = true) ->
   (forall x y z, In x X -> In y X -> In z X -> R x y = true -> R y z = true -> R x z = true) ->
